@@ -2,7 +2,7 @@
 
 Request:  `<observation tokens> @ <stream expression tokens>` (prefix notation, space separated)
 
-  observation:  len | list | pairs | rev | last | first | truthy | idx <i|bad> | slice <lo|_|bad> <hi|_|bad>
+  observation:  len | list | pairs | rev | last | first | truthy | only | idx <i|bad> | slice <lo|_|bad> <hi|_|bad>
               | in <val> | unpack <k> | unpackSplat <before> <after> | takeWhile <pred>
   stream expr:  til a b | tilby a b c | to a b | toby a b c | iota a | perms <list> | combs <list> k
               | subseqs <list> | cpow <list> k | wrap <list> | repeat <val> | cycle <list>
@@ -275,6 +275,7 @@ def obsImpl (obs : List String) (s : Strm Val) : R Res :=
   | ["last"] => (s.index (-1)).map .val
   | ["first"] => (s.index 0).map .val
   | ["truthy"] => s.truthy.map fun b => .val (b2v b)
+  | ["only"] => s.only.map .val
   | ["idx", i] =>
     match parseIdx i with
     | .i n => (s.index n).map .val
@@ -359,6 +360,9 @@ def obsSpec (obs : List String) (streamKind : Bool) : SS Val → R Res
       | some v => .ok (.val v)
       | none => .throw
     | ["truthy"] => .ok (.val (b2v (!l.isEmpty)))
+    | ["only"] => match l with
+      | [v] => .ok (.val v)
+      | _ => .throw
     | ["idx", i] =>
       match parseIdx i with
       | .i n => match pyIndex l n with
@@ -387,6 +391,7 @@ def obsSpec (obs : List String) (streamKind : Bool) : SS Val → R Res
     match obs with
     | ["len"] => .ok .infLen
     | ["truthy"] => .ok (.val (.int 1))
+    | ["only"] => .throw
     | ["first"] => .ok (.val (g 0))
     | ["idx", i] =>
       match parseIdx i with
